@@ -972,7 +972,7 @@ Definition tokenize_chars (l : list ascii) : pyres (list rtok) :=
 Definition tokenize (s : string) : pyres (list rtok) := tokenize_chars (list_ascii_of_string s).
 
 (* ---- _atom_parse: atom_re.fullmatch as an explicit (deterministic, greedy) matcher ----
-   ([1-9][0-9]{0,2})?([A-IK-PR-Zacnopsbt][a-ik-pr-vy]?)(@@|@)?(H[1-4]?)?([+-][1-4+-]?)?(:[0-9]{1,4})?
+   ([1-9][0-9]{0,2})?([A-IK-PR-Zacnopsbt][a-ik-pr-vy]?)(@@|@)?(H[1-4]?)?([+-][1-4+-]?)?(:[0-9]+)?
    no alternative of the pattern can consume a character another one could start with, so the first (greedy) choice is
    the only possible match: backtracking never changes the result *)
 Definition in_range (c : ascii) (lo hi : ascii) : bool :=
@@ -1048,7 +1048,7 @@ Definition atom_parse_chars (l : list ascii) : pyres parsed :=
       (* mapping *)
       let mp := match l5 with
                 | ":"%char :: r6 =>
-                    let '(d, rest) := take_digits 4 r6 in
+                    let '(d, rest) := take_digits (List.length r6) r6 in       (* [0-9]+ : since fix 6e5bd93 any number of digits *)
                     match d, rest with
                     | _ :: _, [] => Some (Some (int_of_digits d))
                     | _, _ => None                                 (* no full match *)
